@@ -18,7 +18,7 @@
 //	c16 files <kind> <dyn|nodyn> <minws|-|pb|minws+pb> f1.basm f2.basm ...   basm on a file set (output of neuralbond / bmqsim + library)
 //	c16 ops                                  `OPS <names of procbuilder.Allopcodes>`, then basm on one source per high-level
 //	                                         matcher pattern of every opcode (with and without -chooser-min-word-size)
-//	c16 text <file>                          basm on one source (replay)
+//	c16 text <file> [kind]                   basm on one source (replay, corpus regression)
 //	c16 json <kind> <what> <bm.json> [pb] [xw=i,o,b] [asm_0 asm_1 ...]   a machine saved by a front-end CLI (bondgo -save-bondmachine, ...)
 //	                                         and the assembly the front-end saved per processor (-save-assembly): their
 //	                                         instruction counts are sent as `AL n0,n1,...`
@@ -84,14 +84,8 @@ func main() {
 		fmt.Fprintln(os.Stderr, "usage: c16 gen <n> | lib <root> <dyn|nodyn> | files <kind> <dyn|nodyn> <minws|-> f... | text <file> | json <kind> <what> <bm.json>")
 		os.Exit(2)
 	}
-	basmdump.RomsizeWithData = basmdump.ProbeRomsizeData()
 	switch os.Args[1] {
 	case "gen":
-		rsd := 0
-		if basmdump.RomsizeWithData {
-			rsd = 1
-		}
-		out.Line("MODE romsizedata=%d", rsd)
 		n, _ := strconv.Atoi(os.Args[2])
 		r := common.NewRng(common.Seed())
 		for i := 0; i < n; i++ {
@@ -159,7 +153,11 @@ func main() {
 	case "text":
 		b, _ := os.ReadFile(os.Args[2])
 		bm, stage, err := basmdump.Assemble(string(b), basmdump.Options{DisableDynamic: true})
-		report(0, "text", false, "S "+strings.ReplaceAll(strings.TrimRight(string(b), "\n"), "\n", "\\n"), bm, stage, err)
+		kind := "text"
+		if len(os.Args) > 3 {
+			kind = os.Args[3]
+		}
+		report(0, kind, false, "S "+strings.ReplaceAll(strings.TrimRight(string(b), "\n"), "\n", "\\n"), bm, stage, err)
 	case "json":
 		b, err := os.ReadFile(os.Args[4])
 		var bm *bondmachine.Bondmachine
